@@ -35,6 +35,7 @@ RULE = (
     "state = canonical simulator state per period of the base run; non-trivial = base scenario with >=2 sessions in which some constraint-limited or level-limited pilot occurs (pilot < EVSE max while charging)"
 )
 ASSUMPTIONS = [
+    "reuse block: back-to-back reuse of a station with a third event in the same period, all session listing orders",
     "N11: duplicated constraint rows with different limits and a pod too tight for all minimum rates (uninterrupted charging)",
     "sorted schedulers are exercised on the all-finite-rate networks only (property: 'finite-rate sorted schedulers'), with pairwise distinct arrivals/departures/energies so no decision hinges on a tie",
     "time-shift comparison only for base scenarios whose first arrival is at period 0 and only for columns >= k (before the first event the max_recompute cadence is anchored at period 0 by design)",
@@ -109,8 +110,23 @@ def base_scenarios(tier):
                 yield {"net": netname, "sessions": ss, "sk": sk}
 
 
+def reuse_scenarios():
+    """a station re-used back to back with a third event in the same period: three events are due at once, and the
+    session listing order decides how they lie in the event heap"""
+    for st in ("PS-A", "PS-B", "PS-C"):
+        for other in ("PS-A", "PS-B", "PS-C"):
+            if other == st:
+                continue
+            for third in ((2, 2), (0, 2), (2, 1)):  # (arrival, stay) of the third session: arrives or leaves in period 2
+                ss = [dict(sess(st, 0, 2, "big", 0), sid="ev0"), dict(sess(st, 2, 2, "small", 1), sid="ev1"), dict(sess(other, third[0], third[1], "big", 2), sid="ev2")]
+                for j, s_ in enumerate(ss):
+                    s_["ed"] = s_["d"] + (2, 0, 1)[j]
+                for sk in ("unc-k1", "altcol1"):
+                    yield {"net": "N2", "sessions": ss, "sk": sk}
+
+
 def space(tier, seed):
-    return [dict(b, tier=tier) for b in base_scenarios(tier)]
+    return [dict(b, tier=tier) for b in base_scenarios(tier)] + [dict(b, tier=tier) for b in reuse_scenarios()]
 
 
 def corders(n, tier):
